@@ -3,7 +3,6 @@ from ..common import hx
 from .. import registry
 from .gens import key_for, blocks_for
 
-LEVEL = "exploration"
 RULE = ("the same operation lines (same seed) are executed by the harness built in every configuration of the matrix and "
         "the outputs compared pairwise between the real builds and against the model; lines = single-block enc/dec and "
         "multi-block batches for every registry type; non-trivial = distinct (type,key,data) with non-zero key")
